@@ -72,7 +72,7 @@ func wasmGen(g *h.Gen) {
 		}
 	}
 	rec(nil, 0)
-	for i := 0; i < g.N(10, 200); i++ { // longer random orders, including a SetSize that does not change the size
+	for i := 0; i < g.N(10, 500); i++ { // longer random orders, including a SetSize that does not change the size
 		n := r.Range(5, 9)
 		var ops []string
 		for j := 0; j < n; j++ {
@@ -124,7 +124,7 @@ func wasmGen(g *h.Gen) {
 		g.Emit("wasm ev %s", strings.Join(ops, "; "))
 	}
 	// ---- random event histories (modes toggled, suspend/resume in between)
-	for i := 0; i < g.N(150, 3000); i++ {
+	for i := 0; i < g.N(150, 6000); i++ {
 		n := r.Range(3, 25)
 		var ops []string
 		for j := 0; j < n; j++ {
@@ -196,7 +196,7 @@ func wasmGen(g *h.Gen) {
 	}
 
 	// ---- draw histories
-	for i := 0; i < g.N(220, 5000); i++ {
+	for i := 0; i < g.N(220, 12000); i++ {
 		var ops []string
 		w, hh := 80, 24
 		if !r.Chance(3) {
